@@ -4,6 +4,7 @@ import Rawr.Props.C08d
 import Rawr.Proofs.RustImpAgree_MakeMove
 import Rawr.Proofs.RustImpAgree_MoveGen
 import Rawr.Proofs.RustSearchAgree
+import Rawr.Proofs.RustSearchAgree_Perft
 import Rawr.Proofs.RustTextAgree_Go
 /-!
 # C08 on the regenerated code: `R.count_moves`, `R.legal_captures`, `R.perft`, the attack queries
